@@ -141,6 +141,15 @@ def run(tier, seed):
     res.sample({"cap": cases[-1][0], "rate": str(cases[-1][1]), "events": [[str(x) for x in e] for e in cases[-1][2]], "decisions": impl[-1][0]})
     out = run_model_parallel(mcases)
     compare(res, "bucket", [c[1] for c in mcases], iobs, out, describe=lambda a: pretty(dec(a)))
+    # "refused only when the allowance is exhausted": per address the decisions are those of one ideal bucket
+    ideal_cases = [("C10.ideal", m[1][1]) for m in mon]
+    io_ = run_model_parallel(ideal_cases)
+    for (i, _, meta), m in zip(mon, io_):
+        if m != enc(True):
+            cap, rate, ev, dec_ = meta
+            res.violations.append({"clause": "refused-only-when-exhausted (decisions of each address = one ideal bucket)", "signature": "C10:ideal",
+                                   "case": {"capacity": cap, "refill_rate": str(rate), "events": [[str(x) for x in e] for e in ev]},
+                                   "trace": {"decisions": dec_}})
     mo = run_model_parallel([m[1] for m in mon])
     for (i, _, meta), m in zip(mon, mo):
         if m != enc(True):
